@@ -6,8 +6,10 @@ cp -r /repo/tsdate $scratch/tsdate
 cp -r /repo/tests $scratch/tests 2>/dev/null
 ( cd $scratch && patch -p1 --no-backup-if-mismatch < $patch > $scratch/patch.log 2>&1 ) || { echo "PATCH FAILED"; cat $scratch/patch.log; rm -rf $scratch; exit 9; }
 for c in "$@"; do
-  VERIF_REPO=$scratch VT_NO_CACHE= /verif/check $c > $scratch/$c.out 2>&1; rc=$?
+  VERIF_REPO=$scratch VERIF_OUT=$scratch/out VT_NO_CACHE= /verif/check $c > $scratch/$c.out 2>&1; rc=$?
   echo "$c exit=$rc  $(grep -c '^VIOLATION' $scratch/$c.out) violation line(s): $(grep '^VIOLATION' $scratch/$c.out | head -2 | tr '\n' ' ')"
   grep "^$c:" $scratch/$c.out
+  jq -r '.coverage.obligation_list[] | select(.verdict=="refuted" or .verdict=="refuted-candidate" or .verdict=="bounded-fail") | "    failed: \(.name) [\(.generator)/\(.verdict)]" + (if .known_finding then " (known finding)" else "" end)' $scratch/out/evidence/$c.json 2>/dev/null | head -12
 done
+[ -n "$KEEP_REPLAYS" ] && { mkdir -p $KEEP_REPLAYS; cp -r $scratch/out/replays/. $KEEP_REPLAYS/ 2>/dev/null; }
 rm -rf $scratch
